@@ -14,7 +14,7 @@ CONSTANTS Ns,          \* signal lengths
           SigVals,     \* sample values
           Kernels,     \* set of kernels: Seq of <<d, g>> taps (d in samples, may be negative)
           Bs,          \* second signals (the first ranges over all of [1..N -> SigVals])
-          Variants,    \* subset of {"vec", "scalar", "narrow", "posonly"} x BOOLEAN explored
+          Variants,    \* subset of {"vec", "scalar", "narrow", "table", "posonly"} x BOOLEAN explored
           K,           \* the scalar of the linear combination
           MaxFilters
 
